@@ -77,6 +77,20 @@ def secretPaths : List Path := (Gen.C35.leaves.filter isSecretLeaf).map (·.yaml
 
 def redactedPaths : List Path := Gen.C35.redactedPaths
 
+/-- Leaves whose NAME looks secret (regenerated fact `looksSecret`: yaml name or Go field name
+    matches `(?i)key|password|secret|private|token|hash|credential|passphrase`) but which
+    Redacted() deliberately leaves readable.  Reviewed list — extend it only with a reason. -/
+def notSecretAllowList : List Path := [
+  ["agent", "public_key"],                  -- a PUBLIC key
+  ["management", "public_key"],             -- a PUBLIC key
+  ["management", "signing_public_key"],     -- a PUBLIC key
+  ["forward", "endpoints", "[]", "key"],    -- routing key = the NAME of a port forward, advertised to the mesh
+  ["forward", "listeners", "[]", "key"],    -- routing key = the NAME of a port forward
+  ["http", "token_hash"]                    -- bcrypt hash of the HTTP API bearer token: NOT among the secrets the property
+                                            -- names (those are password hashes of SOCKS5/shell/file transfer); observation
+                                            -- reported to the lead: it is printed by String()
+]
+
 /-! ### "never changes the original": a memory model with aliasing
 
   A Go `Config` value holds its scalar/struct fields by value and its lists by reference (slice
